@@ -78,6 +78,9 @@ func (e *Engine) callFunction(f *frame, fn *ssa.Function, args []Val, bindings [
 			}
 		}
 	}
+	if e.Opaque[fn] {
+		return e.callOpaque(f, fn, args)
+	}
 	if fc, ok := e.Contracts[fn]; ok && fn != e.verifying || ok && e.specDepth > 0 {
 		return e.useContract(f, fc, args, pos)
 	}
@@ -579,3 +582,65 @@ func (e *Engine) stdInline(fn *ssa.Function) bool {
 }
 
 func (e *Engine) describe(fn *ssa.Function) string { return fmt.Sprint(fn) }
+
+// callOpaque: a recursive spec function is an uninterpreted function of its arguments (byte
+// slices contribute the array value of their object, offset and length); each occurrence
+// outside an unfolding contributes its defining equation once ("fuel 1").
+func (e *Engine) callOpaque(f *frame, fn *ssa.Function, args []Val) Val {
+	X := e.X
+	var flat []*smt.Term
+	for _, a := range args {
+		switch u := a.T.Underlying().(type) {
+		case *types.Slice:
+			for _, c := range comps(u.Elem()) {
+				h := e.heap(f.st, "arr:"+typeKey(u.Elem())+"/"+c.Suffix, c.Sort)
+				flat = append(flat, X.Select(h, a.ref()))
+			}
+			flat = append(flat, a.off(), a.ln())
+		case *types.Pointer:
+			if at, ok := u.Elem().Underlying().(*types.Array); ok {
+				for _, c := range comps(at.Elem()) {
+					h := e.heap(f.st, "arr:"+typeKey(at.Elem())+"/"+c.Suffix, c.Sort)
+					flat = append(flat, X.Select(h, a.ref()))
+				}
+				flat = append(flat, a.off())
+			} else {
+				bail("opaque spec function %s takes a pointer to %s", fn.Name(), u.Elem())
+			}
+		default:
+			if a.Cell != nil || a.Clo != nil {
+				bail("opaque spec function %s takes a static value", fn.Name())
+			}
+			flat = append(flat, a.C...)
+		}
+	}
+	rt := resultType(fn.Signature)
+	cs := comps(rt)
+	res := Val{T: rt}
+	for i, c := range cs {
+		res.C = append(res.C, X.App(fmt.Sprintf("spec|%s|%d", fn.String(), i), c.Sort, flat...))
+	}
+	if e.unfolding[fn] {
+		return res
+	}
+	key := fmt.Sprintf("%s|%d", fn.String(), res.C[0].ID())
+	if e.unfolded[key] {
+		return res
+	}
+	e.unfolded[key] = true
+	e.unfolding[fn] = true
+	e.specDepth++
+	saved := e.pc
+	e.pc = X.True
+	body, _, _ := e.runFunc(fn, args, nil, f.st.clone(), nil)
+	e.pc = saved
+	e.specDepth--
+	e.unfolding[fn] = false
+	saved = e.pc
+	e.pc = X.True
+	for i := range res.C {
+		e.assume(X.Eq(res.C[i], body.C[i]))
+	}
+	e.pc = saved
+	return res
+}
